@@ -23,7 +23,7 @@ ID = "C13"
 LEVEL = "exploration"
 SHARDS = 4
 RULE = (
-    "type definitions = every assignment of serializers {identity, wrap, str, raising} to 1-3 declared "
+    "type definitions = every assignment of serializers {identity, wrap, str, raising, Field.for_types pass-through} to 1-3 declared "
     "fields (every failing subset arises as the set of raising serializers); x message kind (6) x "
     "missing declared field (none / each) x undeclared extra field (0/1) x global fields (0/1) x parent "
     "action (0/1); values cycle through {int, str, list, mutable dict, identity object}; non-trivial = "
@@ -34,7 +34,7 @@ ASSUMPTIONS = [
     "serializer alphabet of 4 behaviours; values from a pool of 5",
 ]
 
-SER = ["id", "wrap", "str", "raise"]
+SER = ["id", "wrap", "str", "raise", "for_types"]
 KINDS = ["message", "start", "success", "failed", "write+serializer", "write"]
 
 
@@ -58,7 +58,9 @@ def BOUNDS(tier):
 def units(tier):
     out = []
     for n in (1, 2, 3):
-        for sers in itertools.product(range(4), repeat=n):
+        for sers in itertools.product(range(5), repeat=n):
+            if n == 3 and sers.count(4) > 1:
+                continue
             out.append(list(sers))
     return out
 
@@ -102,7 +104,13 @@ def run_case(case):
         return f
 
     names = ["f%d" % i for i in range(n)]
-    fields = [Field(names[i], mk(i, sers[i]), "") for i in range(n)]
+    pool = values()
+    fields = [
+        Field(names[i], mk(i, sers[i]), "")
+        if sers[i] != 4
+        else Field.for_types(names[i], [type(pool[i % len(pool)]) if not isinstance(pool[i % len(pool)], Obj) else dict], "")
+        for i in range(n)
+    ]
     MT = MessageType("c13:msg", list(fields), "")
     AT = ActionType("c13:act", list(fields), list(fields), "")
     vals = values()
@@ -244,7 +252,7 @@ def run_case(case):
                 for k, v in given.items():
                     if k in names and kind != 5:
                         s = sers[names.index(k)]
-                        want[k] = v if s == 0 else (["ser", v] if s == 1 else str(v))
+                        want[k] = v if s in (0, 4) else (["ser", v] if s == 1 else str(v))
                     else:
                         want[k] = v
                 got = {k: v for k, v in m.items() if k not in meta}
@@ -252,12 +260,12 @@ def run_case(case):
                     viol.append(("delivered-fields-differ-from-model", {"case": case, "got": repr(got)[:300], "want": repr(want)[:300]}))
                 else:
                     for k, v in want.items():
-                        undeclared_or_identity = (k not in names) or kind == 5 or sers[names.index(k)] == 0
+                        undeclared_or_identity = (k not in names) or kind == 5 or sers[names.index(k)] in (0, 4)
                         if undeclared_or_identity and got[k] is not identities[k]:
                             viol.append(("untouched-field-not-same-object", {"case": case, "field": k}))
                 if kind != 5:
                     for i in range(n):
-                        if counters[i] != 1:
+                        if sers[i] != 4 and counters[i] != 1:
                             viol.append(("serializer-call-count", {"case": case, "field": i, "calls": counters[i]}))
             if glob and m.get("gf") != "G":
                 viol.append(("global-field-missing", {"case": case}))
